@@ -83,6 +83,33 @@ pub fn run_case(c: &Case) -> Result<Outcome, String> {
             }
         }
     }
+    // an accepted sequence written through a sink that accepts short and interrupted writes
+    // must also consist of strictly ascending blocks only
+    if c.seq.len() >= 2 {
+        let ctl = vlib::sio::Ctl::new(vlib::sio::Policy::Alternate);
+        let short = catch_unwind(AssertUnwindSafe(|| -> Result<Vec<u8>, String> {
+            let mut w = wb.build(vlib::sio::SFile::new(&ctl));
+            for (i, s) in c.seq.iter().enumerate() {
+                let val = if s % 2 == 1 { vec![0xEE; 1100] } else { vec![i as u8] };
+                w.insert(&keys[i], &val).map_err(|e| e.to_string())?;
+            }
+            w.into_inner().map(|s| s.data.clone()).map_err(|e| e.to_string())
+        }));
+        match short {
+            Ok(Ok(sb)) => {
+                let (_t, sblocks) = walk_blocks(&sb).map_err(|e| format!("accepted file written through a short-writing sink does not decode: {e}"))?;
+                for b in &sblocks {
+                    for w in b.entries.windows(2) {
+                        if w[0].0 >= w[1].0 {
+                            return Err(format!("written through a short-writing sink, the block at offset {} stores key {} right after key {}", b.offset, vlib::fmt::short(&w[1].0), vlib::fmt::short(&w[0].0)));
+                        }
+                    }
+                }
+            }
+            Ok(Err(e)) => return Err(format!("accepted sequence fails through a short-writing sink: {e}")),
+            Err(p) => return Err(format!("accepted sequence panics through a short-writing sink: {}", panic_message(&p))),
+        }
+    }
     Ok(Outcome::Accepted(blocks.len()))
 }
 
